@@ -88,7 +88,9 @@ Definition view_of_demux (d : dstate) : option view :=
 Definition int64b (z : Z) : bool := (- 2^63 <=? z) && (z <? 2^63).
 Definition bytes_okb (d : list Z) : bool := forallb (fun b => (0 <=? b) && (b <? 256)) d.
 Definition blob_okb (d : list Z) : bool := bytes_okb d && (len d <? 2^30).
-Definition oblob_okb (o : option (list Z)) : bool := match o with Some d => blob_okb d | None => true end.
+(* metadata blobs: at most maxMetadataSize (what AddChunk accepts and the demuxer reads back) *)
+Definition oblob_okb (o : option (list Z)) : bool :=
+  match o with Some d => bytes_okb d && (len d <=? 104857600) | None => true end.
 Definition fopts_okb (fo : fopts) : bool :=
   int64b (o_dur fo) && int64b (o_ox fo) && int64b (o_oy fo) && int64b (o_blend fo) && int64b (o_dispose fo).
 
